@@ -111,7 +111,9 @@ def scenarios(tier):
         # a whole threat-actor kill chain with one blue interference at any step (the attack's late stages run code that
         # nothing else reaches)
         for scen in ("uc7", "uc7_tap003"):
-            S.append((scen + "-long", HE.SHIPPED[scen], "dev", dict(H=110, k=1, reset_seed=None, core=True, core_names=TAP_INTERFERENCE)))
+            # (one interference in any of the first 36 steps, the run continues to step 110: late stages after early interference)
+            S.append((scen + "-long", HE.SHIPPED[scen], "dev", dict(H=110, k=1, reset_seed=None, core=True, core_names=TAP_INTERFERENCE,
+                                                                     dev_until=36)))
     return S
 
 
@@ -136,6 +138,8 @@ def make_adapter(name, cfg, p, oracles):
                  init_reset_seed=p.get("reset_seed", 3), alphabet=pick(cfg, p["hints"], unique=True) if p.get("hints") else None,
                  dev_alphabet=core_alphabet(cfg, p.get("core_names"), p.get("all_targets")) if p.get("core") else None,
                  extra_params={"scenario_name": name, "p": {k: v for k, v in p.items()}})
+    if p.get("dev_until") is not None:
+        ad.dev_until = p["dev_until"]
     if p.get("script_hints"):
         # the default script opens sessions in its first slots and then idles past their time-out
         idx = pick(cfg, p["script_hints"])
